@@ -195,6 +195,7 @@ func sp_othersKeep[K comparable, V any](l *List[K, V], e *Entry[K, V]) bool {
 
 // insert e after at
 func (l *List[K, V]) spec_insert(e, at *Entry[K, V]) {
+	touches(l.len, l.count)
 	reveal("op_ring", "op_wring", "op_acct", "op_flags")
 	requires("inv", sp_ring(l))
 	requires("at", sp_node(l, at, l.listType))
@@ -237,6 +238,7 @@ func (l *List[K, V]) spec_insert(e, at *Entry[K, V]) {
 
 // remove e from the list
 func (l *List[K, V]) spec_remove(e *Entry[K, V]) {
+	touches(l.len, l.count)
 	reveal("op_ring", "op_wring", "op_acct", "op_flags")
 	requires("inv", sp_ring(l))
 	requires("member", sp_in(l, e, l.listType))
@@ -337,6 +339,7 @@ func (l *List[K, V]) spec_Len() (n int) {
 
 // remove and return the back element; nil iff the list is empty
 func (l *List[K, V]) spec_PopTail() (r *Entry[K, V]) {
+	touches(l.len, l.count)
 	reveal("op_ring", "op_wring", "op_acct", "op_flags")
 	requires("inv", sp_ring(l))
 	if r != nil {
